@@ -79,6 +79,25 @@ CAUSES = [
     (r"aten::linear\|", "linear with 1-D weight and bias: explicit NotImplementedError"),
     # --- norm ---
     (r"aten::group_norm\|.*numel=0|aten::native_group_norm\|.*numel=0", "group_norm on an empty batch: Reshape with 0"),
+    (r"aten::(native_)?layer_norm\|", "layer_norm over an empty normalized_shape / empty input: mean/rstd NaN masks differ"),
+    (r"batch_norm.*\|(shape)\|", "batch norm in evaluation mode: torch (CPU) returns empty save_mean/save_invstd, torchlib returns the running statistics"),
+    (r"batch_norm.*\|.*(dtype=f16|dtype=f64|any)$|invalid-graph\|aten::.*batch_norm", "batch norm on float16/float64: eps/one constants are FLOAT -> type-inconsistent Add/Div"),
+    (r"\|value\|aten::.*batch_norm", "batch norm with training=True: torchlib forces training=False (TODO in the source) and normalises with the running statistics"),
+    (r"aten::instance_norm\|", "instance_norm value differences"),
+    # --- float64 precision ---
+    (r"aten::(leaky_relu|celu|selu|elu|hardsigmoid|hardswish|softplus|hardtanh)\|.*dtype=f64", "double input through an ONNX op whose attributes are float32 (alpha etc.): float32-level error in a float64 result"),
+    (r"aten::(deg2rad|rad2deg|log2|log10|sinc|special_sinc|logit|exp2|mish|log_sigmoid|linalg_vector_norm)\|.*dtype=f64", "python float constants are materialised as FLOAT and CastLike'd to DOUBLE: float32-level error in a float64 result"),
+    # --- misc ---
+    (r"\|dtype\|aten::(all|any)(\.dims?)?\|dtype=u8", "all/any on uint8 returns uint8 in torch, bool in torchlib"),
+    (r"\|dtype\|prims::sum\|", "prims::sum of int32 stays int32 (torch accumulates and returns int64)"),
+    (r"prims::(neg|sum)\|dtype=u8", "prims op on uint8: emitted ONNX op has no uint8 overload"),
+    (r"aten::repeat_interleave", "repeat_interleave on an empty tensor / repeats=0"),
+    (r"aten::nonzero\|", "nonzero of a 0-d tensor: shape (0,1) instead of (0,0)/(1,0)"),
+    (r"aten::flip\|", "flip of a 0-d tensor with dims=[0]"),
+    (r"aten::masked_scatter\|", "masked_scatter on 0-d"),
+    (r"aten::bitwise_(left|right)_shift", "bitwise shift Scalar_Tensor / int32: python scalar typed INT64 against int32 tensor"),
+    (r"aten::pow\.", "pow: uint8 exponent / integer corner cases"),
+    (r"aten::(sum|prod|cumsum|amax|amin|max|min|argmax|argmin|logsumexp|glu|sort|topk)", "reduction corner case (0-d / empty / dtype)"),
     # --- e2e ---
     (r"\|e2e:g=atan2\|", "exported atan2(+0, x<0) = -pi (torch +pi)"),
     (r"\|e2e:g=stack\|", "exported stack of mixed dtypes: no promotion, Concat of FLOAT and INT64 (type-inconsistent model)"),
